@@ -1,8 +1,8 @@
 """C18 (unit C18str) — mfuse::str behaves like independent byte strings.
 
 Default generation stays inside the alphabet of the theorem (Spec.pre): the whole alphabet
-under the genuine preconditions (tolower/toupper/non-const operator[] need storage, C-string
-operations need a string without 0 bytes).  What is outside is pinned by a `..._refuted`
+under the genuine preconditions (tolower/toupper/non-const operator[] need storage, append of
+a text / v = w.c_str() / tolower/toupper need strings without 0 bytes).  What is outside is pinned by a `..._refuted`
 theorem and by a witness below that is re-run against the implementation on every check.
 VERIF_C18STR_FULL=1 generates without the preconditions and compares the implementation with
 the SPECIFICATION (the "model=" of a reported disagreement is then the specification)."""
@@ -41,14 +41,14 @@ class Abs:
         c, a = w[0], int(w[1])
         v = self.v
         nonul = "\0" not in v[a]
-        if c in ("AL", "PL", "PC", "AH", "CL", "MI", "DE", "RS", "RV"):
+        if c in ("AL", "PL", "PC"):
             return nonul
         if c in ("AS", "PS"):
             return nonul and "\0" not in v[int(w[2])]
         if c == "AC":
             return "\0" not in v[int(w[2])]
         if c == "SC":
-            return self.has[a] and nonul and int(w[3]) != 0
+            return self.has[a] and int(w[3]) != 0
         if c in ("LO", "UP"):
             return self.has[a] and nonul
         return True
@@ -129,11 +129,6 @@ WITNESSES = [
      "tolower of an empty string is a no-op", "null m_data is dereferenced: the code's own asserted precondition (assert(m_data))"),
     ("index_without_storage", 1, ["SC 0 0 65"],
      "operator[] beyond the length yields the dummy", "null m_data is dereferenced: the code's own asserted precondition (assert(m_data))"),
-    ("realloc_after_resize", 1, ["RS 0 3", "RV 0 20", "SC 0 0 65"],
-     "\"A\" (length 3)", "EnsureAlloced(keepold) copies the text up to the first 0 byte but keeps len = 3: the other bytes are uninitialised; "
-     "after a[0] = 'A' c_str() has no terminator inside the storage (heap over-read)"),
-    ("unshare_after_resize", 2, ["RS 0 3", "CP 1 0", "SC 0 1 66", "SC 0 0 65"],
-     "\"AB\" (length 3)", "EnsureDataWritable copies with copyn up to the first 0 byte: the private copy holds uninitialised bytes (heap over-read)"),
     ("append_after_resize", 1, ["RS 0 8", "AL 0 XY"],
      "c_str() \"\" (8 zero bytes, then XY), length 10", "c_str() is \"XY\" with length 10: cat continues at the first 0 byte, not at length()"),
     ("assign_own_cstr_after_resize", 1, ["SL 0 hello", "RS 0 8", "AC 0 0"],
@@ -156,8 +151,8 @@ class C18str(vlib.HistoryProp):
                 "sizes do not wrap around size_t",
                 "memory returned by the allocator is filled with '?' by an IMemoryManager installed by the harness, as in the model",
                 "the theorem covers the whole alphabet under Spec.pre: non-const operator[] / tolower / toupper only on strings that have storage (the code asserts m_data), "
-                "C-string operations (appends, CapLength, -=, operator[] write, tolower/toupper, resize, reserve, v = w.c_str()) only on strings without 0 bytes "
-                "(a string holds 0 bytes only between a growing resize() and its next assignment); what is outside is pinned by _refuted theorems and witnesses",
+                "operations with C-string semantics (append of a text, v = w.c_str(), tolower/toupper) only on strings without 0 bytes "
+                "(a string holds 0 bytes only after a growing resize() until they are overwritten or it is given a new value); what is outside is pinned by _refuted theorems and witnesses",
                 "reference counts / frees are checked by AddressSanitizer in the harness, the theorem is about contents"]
 
     # ---- generation -----------------------------------------------------------------
@@ -165,7 +160,7 @@ class C18str(vlib.HistoryProp):
             "CL 0 3", "MI 0 2", "SC 0 1 74", "CR 0", "RS 0 2", "AS 0 0"]
     MORE = ["CP 0 0", "AS 0 1", "CL 1 0", "MI 1 100", "LO 1", "UP 0", "AC 1 0", "AC 0 0", "CC 1 0", "PL 1 a",
             "CP 2 0", "AL 2 Q", "RS 0 8", "RS 1 0", "RV 0 20", "RV 1 1", "AN 0 x", "AN 1 _", "AL 0 _"]
-    CORE6 = ["SL 0 Hello", "CP 1 0", "CP 0 1", "AL 0 XY", "AS 1 0", "CL 0 3", "SC 1 1 74", "CR 0", "RS 0 7", "AS 0 0"]
+    CORE6 = ["SL 0 Hello", "CP 1 0", "CP 0 1", "AL 0 XY", "AS 1 0", "CL 0 3", "SC 1 1 74", "CR 0", "RS 0 7", "AS 0 0"]   # RS 0 7 then SC/CP/CL: fill behind 0 bytes
 
     def enum(self, alpha, n, out, origin, nv=3):
         for tup in itertools.product(alpha, repeat=n):
@@ -315,7 +310,7 @@ def check_witnesses(res):
 
 
 def check(res, tier, seed):
-    res.cov["rule"] += ("corpus first (regressions of 091996b, eb9c208 and one file per defect fixed by 913439b, b034b9f, d63a379, c0a3b58); every history of "
+    res.cov["rule"] += ("corpus first (regressions of 091996b, eb9c208 and one file per defect fixed by 913439b, b034b9f, d63a379, c0a3b58, ba5c363); every history of "
                         "length 3 (quick) / 4 (thorough) over a 33-letter alphabet on 3 variables (literal/empty assignment, copies in both directions, "
                         "self-assignment, copy construction, v = w.c_str(), append of a literal / of nothing / of a char / of the other string / of itself, "
                         "CapLength, -=, operator[] write, tolower/toupper, clear, resize up and down and to 0, reserve, assign(text, n)), "
